@@ -15,6 +15,7 @@ package simrt
 
 import (
 	"fmt"
+	"reflect"
 	"runtime"
 	"strings"
 	"unsafe"
@@ -809,6 +810,33 @@ func ElemsProbe[T any](sl []T, label string) {
 	for i := range sl {
 		s.point(request{kind: KWrite, obj: unsafe.Pointer(&sl[i]), label: label + "[i]"})
 	}
+}
+
+// RAny / WAny are probes for rewritten generator code: the location is
+// produced by a closure (evaluated under recover, so that a probe never
+// introduces a nil dereference the statement itself would not have made).
+func RAny(loc func() any, label string) { anyProbe(loc, label, KRead) }
+
+// WAny is the write counterpart of RAny.
+func WAny(loc func() any, label string) { anyProbe(loc, label, KWrite) }
+
+func anyProbe(loc func() any, label string, k Kind) {
+	s := cur
+	if s == nil || s.aborted || s.cur == nil {
+		return
+	}
+	var p unsafe.Pointer
+	func() {
+		defer func() { recover() }()
+		v := reflect.ValueOf(loc())
+		if v.Kind() == reflect.Ptr && !v.IsNil() {
+			p = v.UnsafePointer()
+		}
+	}()
+	if p == nil {
+		return
+	}
+	s.point(request{kind: k, obj: p, label: label})
 }
 
 // ReadAddr is a probed read of an arbitrary address (the harness reading an
